@@ -377,7 +377,7 @@ AddrStr(a) ==
     (CASE a.b = "dot"  -> <<46>>
        [] a.b = "none" -> <<>>
        [] a.b = "last" -> <<36>>
-       [] a.b = "num"  -> NumStr(a.n)
+       [] a.b = "num"  -> (IF "lz" \in DOMAIN a /\ a.lz THEN <<48>> ELSE <<>>) \o NumStr(a.n)      \* numbers are decimal, leading zeros or not
        [] a.b = "mark" -> <<39, a.m>>
        [] a.b = "fwd"  -> <<47>> \o Delimited(a.re, 47) \o <<47>>
        [] a.b = "bwd"  -> <<63>> \o Delimited(a.re, 63) \o <<63>>) \o OffsStr(a.offs)
